@@ -256,6 +256,14 @@ theorem cast_no_livelock (f : α → β) : DeliversWithin (mapElem f) 1 :=
 theorem gate_stable (srd : Bool) (z : α) : KeepsContract (gate srd z) :=
   keepsContract_of_stepStable (gate_stepStable srd z) trivial
 
+/-- Sharper one-cycle form with the two roles separated: the *producer* re-offers valid/payload/first/last of a
+    refused token (`GateHoldsIn`: nothing is asked of `enable`), and whoever drives `enable` holds it while a
+    token waits at the *source* (`EnableHeld`). -/
+theorem gate_stable_sharp (srd : Bool) (z : α) (i i' : In (α × Bool))
+    (hin : GateHoldsIn i i' ((gate srd z).out () i).ready) (hen : EnableHeld i i' ((gate srd z).out () i)) :
+    HoldsOut ((gate srd z).out () i) ((gate srd z).out ((gate srd z).step () i) i') i :=
+  gate_hold_sharp srd z i i' hin hen
+
 /-- Cooperative and enabled: a delivery in every cycle. -/
 theorem gate_no_livelock (srd : Bool) (z : α) : DeliversWithinC (gate srd z) GateCoop 1 :=
   deliversWithin_of_window _ (fun _ => True) trivial (fun _ _ _ => trivial) 1
@@ -348,6 +356,15 @@ theorem chain3_no_livelock (depth : Nat) (hd : 2 ≤ depth) (z : Tok α) :
     DeliversWithin ((pipeValid z).comp ((syncFifo depth z).comp (pipeReady z))) 3 :=
   ((pipeValid_front z).comp ((syncFifo_front depth hd z).comp (pipeReady_measure z))).delivers
     ⟨trivial, by simp [fifoInv, syncFifo, Elem.comp], by simp [prInv, pipeReady, Elem.comp]⟩
+
+/-- ... and a handshake in every cooperative cycle (parked token → delivery; FIFO non-empty → delivery through
+    PipeReady; FIFO empty → writable → PipeValid accepts). -/
+theorem chain3_progress (depth : Nat) (hd : 0 < depth) (z : Tok α) :
+    ProgressWithin ((pipeValid z).comp ((syncFifo depth z).comp (pipeReady z))) 1 :=
+  progressWithin_of_window _ (fun s => True ∧ (fifoInv depth s.2.1 ∧ prInv s.2.2))
+    ⟨trivial, by simp [fifoInv, syncFifo, Elem.comp], by simp [prInv, pipeReady, Elem.comp]⟩
+    ((pipeValid_stepStable z).comp ((syncFifo_stepStable depth z).comp (pipeReady_stepStable z))).inv_step 1
+    (fun s ins hs hc hl => chain3_hs_window depth hd z s hs.2.2 ins hc hl)
 
 /-! ## Gearbox (`L = io_lcm` as computed by the constructor) -/
 
@@ -462,6 +479,29 @@ example :
     let e := syncFifo 2 (⟨0, false, false⟩ : Tok Nat)
     let ins : List (In Nat) := [⟨true, ⟨1, true, false⟩, true⟩, ⟨true, ⟨2, false, false⟩, true⟩, ⟨true, ⟨3, false, true⟩, true⟩]
     (e.accepted [] ins).length = 3 ∧ (e.delivered [] ins).length = 2 := by decide
+
+/-- Non-vacuity for a converter: `upConv 2` fed by a holding producer against a stalling consumer.  The word
+    [5,6] is complete after two cycles, waits two cycles (ready = 0) while the producer — refused — holds 7, and
+    both contracts hold; source.valid is high for three consecutive cycles. -/
+example :
+    let e := upConv (π := Unit) 2 (0 : Nat) ()
+    let ins : List (In (Nat × Unit)) :=
+      [⟨true, ⟨(5, ()), true, false⟩, false⟩, ⟨true, ⟨(6, ()), false, false⟩, false⟩,
+       ⟨true, ⟨(7, ()), false, false⟩, false⟩, ⟨true, ⟨(7, ()), false, false⟩, false⟩,
+       ⟨true, ⟨(7, ()), false, false⟩, true⟩]
+    StableIn e e.init ins ∧ StableOut e e.init ins ∧
+    (e.outs e.init ins).map (·.valid) = [false, false, true, true, true] ∧
+    (e.delivered e.init ins).map (·.data.lanes) = [[5, 6]] := by
+  simp [StableIn, StableInFrom, StableOut, StableOutFrom, HoldsIn, HoldsOut, upConv, Elem.out, Elem.step, Elem.outs,
+    Machine.traceFrom, Elem.toMachine, UpState.outTok, Elem.delivered, Elem.delNow]
+
+/-- Non-vacuity for the gearbox bound: 1 → 3 bits (`io_lcm = 6`, `⌈3/1⌉ + 1 = 4`): four cooperative cycles from
+    reset deliver exactly one word, and three do not deliver any (the bound is tight). -/
+example :
+    let e := gearbox (ioLcm 1 3) 1 3 false
+    let c : In (List Bool) := ⟨true, ⟨[true], false, false⟩, true⟩
+    (e.delivered e.init [c, c, c, c]).length = 1 ∧ (e.delivered e.init [c, c, c]).length = 0 := by decide
+
 
 /-- Status on a two-packet history: beats (f l) = (1 0) (0 1) | (1 1); `first` is back to 1 after each `last`. -/
 example :
